@@ -253,8 +253,11 @@ func ruleJSONLEAFCLASS(c *Ctx, r *Report) {
 		r.bad(rule, "anchor", "-", "token→literal function not found")
 		return
 	}
-	var dec *ssa.Function
+	dec := c.leafClassifier()
 	for _, f := range c.Funcs {
+		if true {
+			break
+		}
 		if fnPkgPath(f) == pkgExpr && f.Parent() == nil && f.Signature.Params().Len() == 1 && isEmptyInterface(f.Signature.Params().At(0).Type()) &&
 			f.Signature.Results().Len() == 1 && isExprPtr(f.Signature.Results().At(0).Type()) {
 			ops := map[string]bool{}
@@ -362,6 +365,29 @@ func ruleJSONLEAFCLASS(c *Ctx, r *Report) {
 	}
 	gp, _ := wildGuard(pr.TokToLit)
 	gd, pos := wildGuard(dec)
+	// quoted text: the parser's kind is Literal whatever the text is, the decoder's kind is a function of the text
+	if gd != "" {
+		quotedLiteral := false
+		qpaths, _ := c.enumPathsOpt(pr.TokToLit, 20000, c.inlBool())
+		for _, p := range qpaths {
+			if p.Ret == nil || len(p.Ret.Results) != 2 || !isNilConst(c.resolve(p.Ret.Results[1], p.Env)) {
+				continue
+			}
+			toks := possibleToks(c, p.Atoms, "$0.Typ")
+			if len(toks) != 1 || !toks["lex.TQuoted"] {
+				continue
+			}
+			rv, _ := c.resolveE(p.Ret.Results[0], p.Env)
+			if call, ok := rv.(*ssa.Call); ok && call.Call.StaticCallee() != nil {
+				if ops := c.ctorOperator(call.Call.StaticCallee()); len(ops) == 1 && ops[0] == "expr.Literal" {
+					quotedLiteral = true
+				}
+			}
+		}
+		if quotedLiteral {
+			r.badW(rule, "quoted|kind-from-content", pos, fmt.Sprintf("a quoted text is a Literal leaf whatever it contains, leaves are encoded as bare JSON values, and the decoder gives a bare string its kind by content [%s]: a quoted text containing * or ? (or of the form /…/) comes back as a pattern leaf. Where the kind decides the rendering — a Wild \"*\" as a range end is an open end without a parameter, a Literal \"*\" is a value — the decoded expression renders different parameterized SQL than the original", gd), "`a:[\"*\" TO 5]`: original `\"a\" BETWEEN ? AND ?` [* 5]; after encode/decode `\"a\" <= ?` [5]")
+		}
+	}
 	switch {
 	case gp == "" || gd == "":
 		r.bad(rule, "wild-test|extract", "-", fmt.Sprintf("wildcard classification not found (parser %q, decoder %q)", gp, gd))
@@ -1677,4 +1703,29 @@ func (c *Ctx) nilInfeasibleHere(f *ssa.Function, mi *ssa.MakeInterface) bool {
 		}
 	}
 	return seen > 0
+}
+
+// leafClassifier: the function of package expr that gives a raw value its leaf kind by content
+// (func(any) *Expression building Literal, Wild and Regexp leaves) — the JSON decoder's leaf constructor.
+func (c *Ctx) leafClassifier() *ssa.Function {
+	var dec *ssa.Function
+	for _, f := range c.Funcs {
+		if fnPkgPath(f) == pkgExpr && f.Parent() == nil && f.Signature.Params().Len() == 1 && isEmptyInterface(f.Signature.Params().At(0).Type()) &&
+			f.Signature.Results().Len() == 1 && isExprPtr(f.Signature.Results().At(0).Type()) {
+			ops := map[string]bool{}
+			for _, b := range f.Blocks {
+				for _, in := range b.Instrs {
+					if call, ok := in.(*ssa.Call); ok && call.Call.StaticCallee() != nil {
+						for _, o := range c.ctorOperator(call.Call.StaticCallee()) {
+							ops[o] = true
+						}
+					}
+				}
+			}
+			if ops["expr.Wild"] && ops["expr.Regexp"] && ops["expr.Literal"] {
+				dec = f
+			}
+		}
+	}
+	return dec
 }
